@@ -48,7 +48,7 @@ def plan(tier, seed):
                    'force_sampling': True} for _ in range(8 if tier == 'quick' else 120)]
     # literal magnitudes: very small / very large numeric literals in equations (printing and precision of literals differs
     # per backend; Fortran needs double precision literals)
-    for b, kk in (('fortran', 12), ('default', 3), ('torch', 3), ('jax', 3)):
+    for b, kk in (('fortran', 20), ('default', 3), ('torch', 3), ('jax', 3)):
         cases += [{'family': 'literals', 'cseed': rnd.randrange(1 << 30), 'backend': b, 'mode': 'vf', 'prec': 'float64',
                    'force_literals': True} for _ in range(kk if tier == 'quick' else kk * 12)]
     opened = open_risks(PID)
@@ -78,35 +78,35 @@ def backend_class(name):
     return bc(name)
 
 
-def scale_literals(spec, rnd):
+def scale_literals(spec, rnd, max_hits=3):
     """Numeric literals of very small / very large magnitude (2.3e-06, 170000.0) written directly in an equation, balanced by a
-    constant of the reciprocal magnitude so that the term keeps its O(1) weight: c*X  ->  (c*s)*zbig*X  with zbig = 1/s."""
+    constant of the reciprocal magnitude so that the term keeps its O(1) weight: c*X  ->  (c*s)*zbig*X  with zbig = 1/s.
+    Up to `max_hits` literals per model are rewritten (each with its own scale and balancing constant)."""
     from vp import expr as E
-    done = False
+    hits = []
     for opn, op in spec['ops'].items():
         for eq in op['eqs']:
-            if eq[0] != 'de' or done:
+            if eq[0] != 'de' or len(hits) >= max_hits:
                 continue
             tree = E.fromlist(eq[2])
-            scale = rnd.choice([1e-5, 1e-7, 1e-4, 1e5])
-            state = {'hit': False}
 
             def rewrite(e):
-                if state['hit'] or not isinstance(e, tuple):
+                if not isinstance(e, tuple) or e[0] in ('num', 'var', 'const'):
                     return e
-                if e[0] == 'mul' and e[1][0] == 'num' and abs(e[1][1]) >= 0.1 and e[2][0] != 'num':
-                    state['hit'] = True
+                if len(hits) < max_hits and e[0] == 'mul' and e[1][0] == 'num' and abs(e[1][1]) >= 0.1 and e[2][0] != 'num' \
+                        and rnd.random() < 0.7:
+                    scale = rnd.choice([1e-5, 1e-7, 1e-4, 1e5, 1e-6])
+                    name = f'zbig{len(hits)}'
+                    while name in op['vars']:
+                        name += '_'
+                    hits.append((opn, name, scale))
+                    op['vars'][name] = ['const', 1.0 / scale]
                     lit = float(f"{e[1][1] * scale:.3e}")
-                    return ('mul', ('mul', ('num', lit), ('var', 'zbig')), e[2])
-                if e[0] in ('num', 'var', 'const'):
-                    return e
+                    return ('mul', ('mul', ('num', lit), ('var', name)), rewrite(e[2]))
                 return (e[0],) + tuple(rewrite(a) if isinstance(a, tuple) else a for a in e[1:])
-            new = rewrite(tree)
-            if state['hit'] and 'zbig' not in op['vars']:
-                eq[2] = E.tolist(new)
-                op['vars']['zbig'] = ['const', 1.0 / scale]
-                done = True
-    return done
+            new_tree = rewrite(tree)
+            eq[2] = E.tolist(new_tree)
+    return bool(hits)
 
 
 def run_case(case, ctx):
